@@ -104,3 +104,31 @@ func init() {
 	addMutant(mutant{Name: "silent/rename-metadb-and-wal-fields", Silent: true,
 		Renames: map[string]string{"ensureOpen": "openOnce", "safeInitBoltDB": "createMetaDB", "codec": "entryCodec", "awaitRotate": "rotationDone", "triggerRotate": "rotateCh"}})
 }
+
+func init() {
+	// obligations added after seeded round 4
+	addMutant(mutant{Name: "wal/open-cleanup-gets-defer-time-snapshot", Fire: []string{"ORD-20"},
+		Edits: []edit{{"wal.go", "	defer func() {\n		if opened {\n			return\n		}\n		toClose := make([]io.Closer, 0, newState.segments.Len())\n		it := newState.segments.Iterator()",
+			"	defer func(segs *immutable.SortedMap[uint64, segmentState]) {\n		if opened {\n			return\n		}\n		toClose := make([]io.Closer, 0, segs.Len())\n		it := segs.Iterator()"},
+			{"wal.go", "		w.closeSegments(toClose)\n		w.metaDB.Close()\n	}()", "		w.closeSegments(toClose)\n		w.metaDB.Close()\n	}(newState.segments)"}}})
+	addMutant(mutant{Name: "silent/open-cleanup-named-helper-by-pointer", Silent: true,
+		Edits: []edit{{"wal.go", "	defer func() {\n		if opened {\n			return\n		}\n		toClose := make([]io.Closer, 0, newState.segments.Len())\n		it := newState.segments.Iterator()\n		for !it.Done() {\n			_, seg, _ := it.Next()\n			if seg.r != nil {\n				toClose = append(toClose, seg.r)\n			}\n		}\n		w.closeSegments(toClose)\n		w.metaDB.Close()\n	}()",
+			"	defer w.abortOpen(&opened, &newState)"},
+			{"wal.go", "func (w *WAL) deleteSegments(toDelete map[uint64]uint64) {", "func (w *WAL) abortOpen(opened *bool, st *state) {\n	if *opened {\n		return\n	}\n	toClose := make([]io.Closer, 0, st.segments.Len())\n	it := st.segments.Iterator()\n	for !it.Done() {\n		_, seg, _ := it.Next()\n		if seg.r != nil {\n			toClose = append(toClose, seg.r)\n		}\n	}\n	w.closeSegments(toClose)\n	w.metaDB.Close()\n}\n\nfunc (w *WAL) deleteSegments(toDelete map[uint64]uint64) {"}}})
+	addMutant(mutant{Name: "reader/reuse-closed-pooled-buffer", Fire: []string{"VF-22"},
+		Edits: []edit{{"segment/reader.go", "	buf = &types.PooledBuffer{\n		Bs: make([]byte, fh.len),", "	buf.Bs = make([]byte, fh.len)\n	_ = &types.PooledBuffer{\n		Bs: nil,"}}})
+	addMutant(mutant{Name: "reader/double-close-on-error", Fire: []string{"VF-22"},
+		Edits: []edit{{"segment/reader.go", "	if fh.len > MaxEntrySize {\n		return fh, nil,", "	if fh.len > MaxEntrySize {\n		buf.Close()\n		return fh, nil,"}}})
+	addMutant(mutant{Name: "writer/early-flush-in-appendFrame", Fire: []string{"ORD-29"},
+		Edits: []edit{{"segment/writer.go", "	w.writer.crc = crc32.Update(w.writer.crc, castagnoliTable, w.writer.commitBuf[bufOffset:bufOffset+l])\n	return bufOffset, nil",
+			"	w.writer.crc = crc32.Update(w.writer.crc, castagnoliTable, w.writer.commitBuf[bufOffset:bufOffset+l])\n	if len(w.writer.commitBuf) >= 16*1024*1024 {\n		if err := w.flush(); err != nil {\n			return 0, err\n		}\n	}\n	return bufOffset, nil"}}})
+	addMutant(mutant{Name: "verifier/hash-skips-every-config-entry", Fire: []string{"VF-04"},
+		Edits: []edit{{"verifier/verifier.go", "	if log.Index == 1 && log.Type == raft.LogConfiguration {", "	if log.Type == raft.LogConfiguration {"}}})
+	addMutant(mutant{Name: "verifier/hash-skips-noop-entries", Fire: []string{"VF-04"},
+		Edits: []edit{{"verifier/verifier.go", "	if log.Index == 1 && log.Type == raft.LogConfiguration {\n		return 0\n	}", "	if log.Index == 1 && log.Type == raft.LogConfiguration {\n		return 0\n	}\n	if log.Type == raft.LogNoop {\n		return sum\n	}"}}})
+	addMutant(mutant{Name: "verifier/checkpoint-counted-before-store", Fire: []string{"ORD-24"},
+		Edits: []edit{{"verifier/store.go", "				triggeredReports = append(triggeredReports, *vr)\n", "				triggeredReports = append(triggeredReports, *vr)\n				s.metrics.IncrementCounter(\"checkpoints_written\", 1)\n"},
+			{"verifier/store.go", "	if len(triggeredReports) > 0 {\n		s.metrics.IncrementCounter(\"checkpoints_written\", uint64(len(triggeredReports)))\n	}\n", ""}}})
+	addMutant(mutant{Name: "wal/tail-truncation-counter-uses-writer-lastindex", Fire: []string{"VF-10"},
+		Edits: []edit{{"wal.go", "			if seg.SealTime.IsZero() {\n				maxIdx = newState.lastIndex()\n			}", "			if seg.SealTime.IsZero() {\n				maxIdx = newState.tail.LastIndex()\n			}"}}})
+}
